@@ -1545,6 +1545,8 @@ Outcome check_hist(const Case &c, Stats &st, bool raw) {
     st.inc("refused");
   }
   st.inc("fault_f5_ntow_fired", hooks().unusual_fired);
+  st.inc("gamma_refused_queries", hooks().refused_queries);
+  st.inc("gamma_tag_checks", hooks().tag_checks);
   st.result_hashes.push_back(out.hash);
   st.inc("histories");
   return out;
